@@ -94,7 +94,16 @@ func VerifC15Tx() {
 	c15TxSlots = make([]uint64, k)
 	c15BlockTimes = make([]uint64, k)
 	for i := range kinds {
-		kinds[i] = byte(kindOf[verifChoice("kind", len(kindOf))])
+		kc := verifChoice("kind", len(kindOf))
+		kinds[i] = byte(kindOf[kc])
+		if kc == 2 {
+			// "any other object": an arbitrary kind byte that is none of Transaction, Block, DataFrame
+			// (Entry and Rewards are dropped by the accumulator's ignore set; Subset, Epoch and bytes
+			// that are no kind at all reach ObjectsToTransactionsAndMetadata and must be passed over)
+			ob := verifU8("other_kind")
+			verifAssume(ob != byte(iplddecoders.KindTransaction) && ob != byte(iplddecoders.KindBlock) && ob != byte(iplddecoders.KindDataFrame))
+			kinds[i] = ob
+		}
 		c15TxSlots[i] = verifU64("slot")
 		c15BlockTimes[i] = verifU64("blocktime")
 		verifAssume(c15TxSlots[i] < 1<<62 && c15BlockTimes[i] < 1<<62) // int <-> uint64 round trip of the decoded fields
